@@ -7,6 +7,7 @@ package pipe
 import (
 	"context"
 	"encoding/json"
+	"errors"
 	"fmt"
 	"os"
 	"sort"
@@ -21,6 +22,7 @@ import (
 	"github.com/openfga/openfga/internal/verifh/e2"
 	"github.com/openfga/openfga/internal/verifh/ref"
 	"github.com/openfga/openfga/internal/verifrt/vrt"
+	"github.com/openfga/openfga/pkg/storage"
 	"github.com/openfga/openfga/pkg/storage/memory"
 	"github.com/openfga/openfga/pkg/typesystem"
 )
@@ -39,10 +41,33 @@ type Params struct {
 	Procs   int         `json:"procs"`
 	Cancel  bool        `json:"cancel,omitempty"` // a thread cancels the request context at an arbitrary time
 	Early   int         `json:"early,omitempty"`  // the consumer stops after this many results and closes
+	FaultAt int         `json:"fault_at,omitempty"` // the k-th datastore read fails (1-based; 0 = never)
+	Fault   string      `json:"fault,omitempty"`    // "panic" | "error"
+}
+
+// faultyReader makes the k-th ReadStartingWithUser call panic or fail (the environment's answer is
+// owned by the harness; k ranges over every read the undisturbed run makes).
+type faultyReader struct {
+	storage.RelationshipTupleReader
+	k, n int
+	kind string
+}
+
+var errInjectedRead = errors.New("verif: injected read failure")
+
+func (f *faultyReader) ReadStartingWithUser(ctx context.Context, store string, filter storage.ReadStartingWithUserFilter, o storage.ReadStartingWithUserOptions) (storage.TupleIterator, error) {
+	f.n++
+	if f.k > 0 && f.n == f.k {
+		if f.kind == "panic" {
+			panic("verif: injected panic in datastore read")
+		}
+		return nil, errInjectedRead
+	}
+	return f.RelationshipTupleReader.ReadStartingWithUser(ctx, store, filter, o)
 }
 
 func (p Params) String() string {
-	return fmt.Sprintf("%s %s#%s@%s chunk=%d buf=%d procs=%d cancel=%v early=%d tuples{%s}", p.Name, p.Type, p.Rel, p.Subject, p.Chunk, p.Buffer, p.Procs, p.Cancel, p.Early, e2.TuplesStr(p.Tuples))
+	return fmt.Sprintf("%s %s#%s@%s chunk=%d buf=%d procs=%d cancel=%v early=%d fault=%s@%d tuples{%s}", p.Name, p.Type, p.Rel, p.Subject, p.Chunk, p.Buffer, p.Procs, p.Cancel, p.Early, p.Fault, p.FaultAt, e2.TuplesStr(p.Tuples))
 }
 
 func rel(e *ref.Expr, rs ...ref.Restr) *ref.RelDef { return &ref.RelDef{Rewrite: e, Restr: rs} }
@@ -114,6 +139,26 @@ func baseScenarios(thorough bool) []Params {
 		q.Early = 1
 		out = append(out, q)
 	}
+	// a datastore read that panics / fails at the k-th call (every k the undisturbed run makes; the run
+	// makes fewer than 8): the pipeline must still tear down (Close returns, nobody is left parked)
+	fi := []int{0, 4}
+	if thorough {
+		fi = []int{0, 2, 4, 6}
+	}
+	for _, i := range fi {
+		for k := 1; k <= 6; k++ {
+			for _, kind := range []string{"panic", "error"} {
+				if !thorough && kind == "error" && k != 2 {
+					continue
+				}
+				q := ps[i]
+				q.Model = ms[q.Name]
+				q.Chunk, q.Buffer, q.Procs = 1, 1, 1
+				q.FaultAt, q.Fault = k, kind
+				out = append(out, q)
+			}
+		}
+	}
 	return out
 }
 
@@ -172,7 +217,11 @@ func scenario(p Params) e1.Scenario {
 			ctx, cancel := context.WithCancel(context.Background())
 			defer cancel()
 			validator := pipeline.NewValidator(ctx, ts, nil)
-			reader := pipeline.NewValidatingStore(ds, storeID, pipeline.WithStoreValidator(validator))
+			var rd storage.RelationshipTupleReader = ds
+			if p.FaultAt > 0 {
+				rd = &faultyReader{RelationshipTupleReader: ds, k: p.FaultAt, kind: p.Fault}
+			}
+			reader := pipeline.NewValidatingStore(rd, storeID, pipeline.WithStoreValidator(validator))
 			b, err := pipeline.NewBuilder(reader, pipeline.WithChunkSize(p.Chunk), pipeline.WithBufferCapacity(p.Buffer), pipeline.WithNumProcs(p.Procs))
 			if err != nil {
 				buildErr = err
@@ -236,7 +285,7 @@ func scenario(p Params) e1.Scenario {
 					return "pipeline-unsound-object", desc("object " + o + " delivered but the relation does not hold"), outcome, key
 				}
 			}
-			if !p.Cancel && p.Early == 0 {
+			if !p.Cancel && p.Early == 0 && p.FaultAt == 0 {
 				if perr != nil {
 					return "pipeline-unexpected-error", desc("pipeline error: " + perr.Error()), outcome, key
 				}
